@@ -71,6 +71,10 @@ __all__ = (
 #   'nonterm'   : the nonterminal's precedence (original Parsing.py)
 DEFAULT_PROD_PREC = os.environ.get('VRT_PROD_PREC', 'rightmost')
 
+# Table construction method: 'pager' (LR(1), Pager's PGM -- what the real
+# library does) or 'lalr'.
+LR_METHOD = os.environ.get('VRT_LR_METHOD', 'pager')
+
 CACHE_DIR = pathlib.Path(
     os.environ.get('VRT_CACHE_DIR', str(_RT.parent.parent / 'cache')))
 
@@ -211,14 +215,16 @@ def _dirtoks(doc):
 class Spec:
     def __init__(self, modules, pickleFile=None, pickleMode='rw',
                  skinny=True, logFile=None, graphFile=None, verbose=False,
-                 default_prod_prec=None, use_cache=True):
+                 default_prod_prec=None, use_cache=True, method=None):
         if isinstance(modules, types.ModuleType):
             modules = [modules]
         self._verbose = verbose
         self._skinny = skinny
         self._default_prod_prec = default_prod_prec or DEFAULT_PROD_PREC
+        self._method = method or LR_METHOD
         if self._default_prod_prec not in ('rightmost', 'leftmost',
-                                           'nonterm'):
+                                           'nonterm', 'single', 'last',
+                                           'first'):
             raise SpecError(
                 f'bad default_prod_prec {self._default_prod_prec!r}')
 
@@ -421,6 +427,16 @@ class Spec:
 
     def _default_prec(self, nonterm, rhs):
         mode = self._default_prod_prec
+        if mode == 'single':
+            terms = [s for s in rhs if isinstance(s, TokenSpec)]
+            if len(terms) == 1:
+                return terms[0].prec
+            return nonterm.prec
+        if mode in ('last', 'first'):
+            terms = [s for s in rhs if isinstance(s, TokenSpec)]
+            if terms:
+                return terms[-1 if mode == 'last' else 0].prec
+            return nonterm.prec
         if mode != 'nonterm':
             seq = reversed(rhs) if mode == 'rightmost' else rhs
             for sym in seq:
@@ -504,6 +520,7 @@ class Spec:
                 for k, v in sorted(g.precedences.items())},
         }
         h.update(json.dumps(desc, sort_keys=True).encode('utf-8'))
+        h.update(b'\0method=' + self._method.encode())
         for src in (pathlib.Path(lrgen.__file__), pathlib.Path(__file__)):
             h.update(b'\0')
             h.update(src.read_bytes())
@@ -522,7 +539,8 @@ class Spec:
                 data = None
         if data is None:
             t0 = time.time()
-            tables = lrgen.generate(g, verbose=self._verbose)
+            tables = lrgen.generate(
+                g, verbose=self._verbose, method=self._method)
             data = {
                 'key': key,
                 'stats': tables.stats,
